@@ -12,13 +12,14 @@ LEVEL = "exploration"
 N_QUICK, N_THOROUGH = 14000, 300000
 T_QUICK, T_THOROUGH = 70, 1500
 OPS = ["set-scalar", "set-string", "set-array", "set-array-element", "set-nested", "set-ref-same", "set-ref-other",
-       "copy", "move", "move-refused-nested", "move-refused-refs", "write-through-shared", "ref-to-nested-part-then-rebind", "set-ref-null-then-same"]
+       "copy", "move", "move-refused-nested", "move-refused-refs", "write-through-shared", "ref-to-nested-part-then-rebind", "set-ref-null-then-same", "derive-extended-class"]
 FLOORS = {"histories": 1500, "steps": 15000, "object_comparisons": 60000, "renamed_fields_compared": 5000,
           "growths": 300, "three_level_families": 300, "nested_copy_duplicated_referent": 40,
           "copy_duplicated_referent": 60}
 FLOORS.update({"op:" + o: 250 for o in OPS})
 FLOORS["op:ref-to-nested-part-then-rebind"] = 60
 FLOORS["op:set-ref-null-then-same"] = 150
+FLOORS["op:derive-extended-class"] = 150
 RULE = ("generated hybrid class families (2-3 levels: scalars, strings, numeric arrays of any shape, nested hybrids, "
         "references to hybrids, renamed fields) in two buffers; histories of <=20 steps over {set scalar/string/array/"
         "array element (also inside nested dressed parts), assign dressed object to a nested field (same/other buffer), "
@@ -57,7 +58,7 @@ def subobjects(t):
 
 def run_case(w, rng):
     levels = rng.choice([1, 1, 2])
-    specs, outer = gen_family(rng, levels=levels)
+    specs, outer = gen_family(rng, levels=levels, defaults=rng.random() < 0.4)
     if levels == 2:
         w.count("three_level_families")
     vg = ValGenH(rng)
@@ -191,6 +192,21 @@ def _step(w, rng, vg, op, tracked, envs, specs, outer, new_obj, hist, viol):
             getattr(obj, pn)[idx] = v[idx]
         _set_model(t, xp, xn, v)
         hist.append([op, f"#{t.i}." + ".".join(pp + [pn])])
+        return True
+    if op == "derive-extended-class":
+        # a class derived from the class of a live object by re-using the parent's fields dictionary and adding fields;
+        # an object of the derived class and a new object of the parent class are created; the objects of the parent
+        # class that exist already (and the new one) must go on mirroring their own buffer data
+        from xv.hybridgen import make_extension
+        live = [t for t in tracked.values() if not t.dead and t.obj is not None and "parent" not in t.spec]
+        if not live:
+            return False
+        t = rng.choice(live)
+        ext = make_extension(rng, t.spec)
+        env = rng.choice(envs)
+        e = new_obj(ext, env)
+        p2 = new_obj(t.spec, env)
+        hist.append([op, ext["name"], f"#{e.i}", f"new parent object #{p2.i}"])
         return True
     if op == "set-nested":
         pick = _pick_sub(rng, tracked, lambda s: bool(fields_of(s, "nested")))
